@@ -114,6 +114,7 @@ func (sc *metaScn) c06Check(st *metaStep) {
 	if st.actorU == ownerBefore && st.Kind == "setOther" && st.Code < 300 {
 		if ra, ok := st.after.subs[st.targetU]; ok {
 			sc.offeredO[st.targetU] = ra.ModeGiven.IsOwner()
+			delete(sc.staleOffer, st.targetU) // whatever the grant says now, the current owner has set it
 		}
 	}
 }
@@ -191,13 +192,29 @@ func (sc *metaScn) c06Owners(st *metaStep) {
 		selfSet := st.Kind == "sub" || st.Kind == "setSelf" || (st.Kind == "setOther" && st.targetU == st.actorU)
 		legit := st.actorU == owners[0] && selfSet && sc.offeredO[owners[0]] && rb.ModeGiven.IsOwner() &&
 			((plain && argMode.IsOwner()) || strings.Contains(st.Arg, "+"))
-		if !legit {
+		staleAccepted := st.actorU == owners[0] && selfSet && sc.staleOffer[owners[0]] && rb.ModeGiven.IsOwner() &&
+			((plain && argMode.IsOwner()) || strings.Contains(st.Arg, "+"))
+		if !legit && staleAccepted {
+			// the subscriber accepted an offer which a FORMER owner had made before ownership moved on: the grant is
+			// still in the subscription although the current owner never made it (recorded finding)
+			r.Violation("ownership-moved-on-offer-of-former-owner", fmt.Sprintf("ownership moved from %s to %s, who accepted an offer made by a former owner; the current owner never offered it", sc.roleOf(prev), sc.roleOf(owners[0])), sc.wit(st, nil))
+		} else if !legit {
 			r.Violation("ownership-moved-without-acceptance:"+st.Kind+":"+st.Actor, fmt.Sprintf("ownership moved from %s to %s in a step which is not the acceptance of an offer by the owner", sc.roleOf(prev), sc.roleOf(owners[0])), sc.wit(st, nil))
 		}
 		if pr, ok := after.subs[prev]; ok && (pr.ModeGiven.IsOwner() || pr.ModeWant.IsOwner()) {
 			r.Violation("previous-owner-keeps-O", "after the transfer the previous owner still has O in want or given", sc.wit(st, nil))
 		}
 		sc.owner = owners[0]
+		// offers which are still pending were made by somebody who is not the owner any more
+		if sc.staleOffer == nil {
+			sc.staleOffer = map[types.Uid]bool{}
+		}
+		for uid, on := range sc.offeredO {
+			if row, ok := after.subs[uid]; on && uid != owners[0] && ok && row.DeletedAt == nil && row.ModeGiven.IsOwner() {
+				sc.staleOffer[uid] = true
+			}
+		}
+		delete(sc.staleOffer, owners[0])
 		sc.offeredO = map[types.Uid]bool{}
 	}
 }
